@@ -39,19 +39,20 @@ func (m *Machine) indexAddr(x Val, idx Int) Val {
 	return nil
 }
 
-// concretize forks over the feasible values of a small symbolic integer (<=64 values).
+// concretize forks over the feasible values of a symbolic integer (solver-enumerated).
 func (m *Machine) concretize(v Int, what string) Int {
 	if v.IsC() {
 		return v
 	}
-	for k := uint64(0); k < 64; k++ {
-		if m.ex.Branch(Bool{S: "(= " + v.S + " " + CI(v.W, k).T() + ")"}) {
-			return CI(v.W, k)
-		}
+	k, ok := m.ex.ConcretizeBV(v.S, v.W)
+	if !ok {
+		m.incon("symbolic " + what + " not concretizable")
 	}
-	m.incon("symbolic " + what + " not concretizable")
-	return v
+	return CI(v.W, k)
 }
+
+// structured: the buffer has engine-tracked content (not a pristine symbolic input array)
+func structured(b *ByteArr) bool { return b != nil && (len(b.Known) > 0 || b.Zero) }
 
 func (m *Machine) index(x Val, idx Int) Val {
 	idx = m.resize(idx, 64, true)
@@ -346,6 +347,16 @@ func (m *Machine) sliceOp(fr *frame, x *ssa.Slice) Val {
 		mxv = *mx
 	}
 	m.rtOblige(And(And(sle(CI(64, 0), l), sle(l, h)), And(sle(h, mxv), sle(mxv, s.Cap))), "slice-bounds-out-of-range")
+	if structured(s.B) && s.B.Cap.IsC() {
+		// symbolic offsets into structured buffers are case-split (cheap concrete paths instead of
+		// symbolic-index selects over long store chains)
+		if !l.IsC() {
+			l = m.concretize(l, "slice low bound")
+		}
+		if !h.IsC() && hi != nil {
+			h = m.concretize(h, "slice high bound")
+		}
+	}
 	return Slice{A: s.A, B: s.B, Off: m.add(s.Off, l), Len: m.sub(h, l), Cap: m.sub(mxv, l), Nil: s.Nil && s.B == nil && s.A == nil}
 }
 
@@ -415,11 +426,18 @@ func (m *Machine) copyBytes(dst Slice, srcv Val) Val {
 		return n
 	}
 	bound := uint64(copyUnroll)
-	if dst.B.Cap.IsC() && dst.B.Cap.C < bound {
-		bound = dst.B.Cap.C
+	for _, l := range []Int{dst.Len, src.Len, dst.B.Cap, src.B.Cap} {
+		if l.IsC() && l.C < bound {
+			bound = l.C
+		}
 	}
-	if src.B.Cap.IsC() && src.B.Cap.C < bound {
-		bound = src.B.Cap.C
+	if bound <= 256 {
+		// n = min(len dst, len src) <= bound: case-split, then copy concretely
+		for k := uint64(0); k <= bound; k++ {
+			if k == bound || m.ex.Branch(Bool{S: "(= " + n.T() + " " + CI(64, k).T() + ")"}) {
+				return m.copyBytes(Slice{B: dst.B, Off: dst.Off, Len: CI(64, k), Cap: CI(64, k)}, Slice{B: src.B, Off: src.Off, Len: CI(64, k), Cap: CI(64, k)})
+			}
+		}
 	}
 	if bound == copyUnroll {
 		r := m.ex.Aux(func() int {
